@@ -151,8 +151,10 @@ std::string editModel(NifFile& nif, Tape& t) {
 				auto s = shapes[t.u8() % shapes.size()];
 				if (s->GetNumVertices() == 0)
 					break;
-				nif.MoveVertex(s, Vector3(0.12345678f, -3.3333333f, 7.0000019f), t.u16() % s->GetNumVertices());
-				log += "move-vertex(non-half values); ";
+				// inside the shape, or far outside it (then the bounding sphere has to follow)
+				const bool far = t.coin();
+				nif.MoveVertex(s, far ? Vector3(4321.0123f, -3.3333333f, 987.65431f) : Vector3(0.12345678f, -3.3333333f, 7.0000019f), t.u16() % s->GetNumVertices());
+				log += far ? "move-vertex(far outside, non-half values); " : "move-vertex(non-half values); ";
 				break;
 			}
 			case 9: { // texture coordinates that no 16-bit half can hold exactly
@@ -223,8 +225,21 @@ Verdict prop(Tape& t, Run& run) {
 	const bool interleave = !t.chance(64); // mostly query between saves
 	const int saves = 3;
 	std::string edits;
-	if (c.kind == "graph" || c.kind == "corpus")
+	if (c.kind == "graph" || c.kind == "corpus") {
+		// queries before the edits as well: what a getter caches must not outlive an edit
+		if (interleave) {
+			BatteryOpts warm;
+			warm.withPartitions = c.kind != "synth1" && c.kind != "synthN";
+			battery(nif, warm);
+			for (auto s : nif.GetShapes()) {
+				std::vector<Vector3> v;
+				nif.GetVertsForShape(s, v);
+				nif.GetVertsForShape(s);
+			}
+			run.cls("queried-before-editing");
+		}
 		edits = editModel(nif, t);
+	}
 	if (!edits.empty())
 		run.cls("edited-before-saving");
 	const std::string mode = useDefault ? "default" : "raw";
@@ -258,7 +273,13 @@ Verdict prop(Tape& t, Run& run) {
 
 	const NifSaveOptions& so = useDefault ? defOpts() : rawOpts();
 	std::string qPrevIdx, qLogical0;
-	if (useDefault)
+	// Mostly the reference answers are taken before the first save; sometimes (edited models) the first
+	// save follows the edit directly, with the first queries only after it: nothing may refresh what an
+	// earlier getter cached in between. (Read last, after every other tape byte of the case.)
+	const bool preQuery = edits.empty() || !t.chance(96);
+	if (!preQuery)
+		run.cls("first-save-directly-after-the-edit");
+	else if (useDefault)
 		qLogical0 = battery(nif, logical);
 	else
 		qPrevIdx = battery(nif, idx);
@@ -296,7 +317,7 @@ Verdict prop(Tape& t, Run& run) {
 
 		// queries
 		if (interleave || k == saves) {
-			if (useDefault && k == 1) {
+			if (useDefault && k == 1 && preQuery) {
 				std::string q = battery(nif, logical);
 				if (q != qLogical0)
 					return run.fail(sigBase + ":save#1:query", detail("a query answers differently after the first default save (reachable part, order-insensitive)", batteryDiff(qLogical0, q)));
